@@ -10,8 +10,11 @@ Open Scope list_scope.
 Definition cls0 : list (list string) := [["a"; "b"]; ["a"; "b"; "c"]; ["pos"; "w"]; ["x"]].
 Definition pri0 : list (nat * (Z * Z)) := map (fun p => (p, (0, 10)%Z)) (seq 0 8).
 (* the pinned wrapper: no clean-up on exceptions (Model.wrapper_cleanup = false at the pinned commit) *)
-Definition cfg_pinned : config := mkConfig cls0 pri0 false.
-Definition cfg_repaired : config := mkConfig cls0 pri0 true.
+Definition cfg_pinned : config := mkConfig cls0 pri0 false true true.
+(* /repo today: wrapper repaired (5afd9f1); prior passing thaws; __setitem__ transfers ids *)
+Definition cfg_repaired : config := mkConfig cls0 pri0 true true true.
+(* with the two proposed repairs applied as well *)
+Definition cfg_fixed : config := mkConfig cls0 pri0 true false false.
 (* both configurations start from the same empty heap with the eight priors of pri0 *)
 Definition init0 : state := mkState [] [] pri0.
 
@@ -209,9 +212,9 @@ Lemma derive_flags : map ofrozen (heap (fst (step cfg_repaired (ODerive 1) (fst 
   /\ map ofrozen (heap (fst (run cfg_repaired h_derive init0))) = [true; true].
 Proof. split; vm_compute; reflexivity. Qed.
 
-Lemma derive_thaws : derive_thaws = true -> ~ derive_keeps_flags cfg_repaired.
+Lemma derive_thaws_flags : ~ derive_keeps_flags cfg_repaired.
 Proof.
-  intros _ H. specialize (H h_derive 1). change (init cfg_repaired) with init0 in H.
+  intros H. specialize (H h_derive 1). change (init cfg_repaired) with init0 in H.
   destruct derive_flags as [E1 E2]. rewrite E1, E2 in H. discriminate.
 Qed.
 
@@ -251,4 +254,13 @@ Example self_reference :
   snd (run cfg_repaired [ONew KColl [("m", VPrior 0)] 0; OSet 0 "q" (VRef 0); OSet 0 "n" (VPrior 1); OQuery 0 QCount;
                          OQuery 0 QPaths; OFreeze 0; OQuery 0 QCount; OCopy 0; OQuery 1 QCount] init0)
   = [Ok AUnit; Ok AUnit; Ok AUnit; Ok (ANat 1); Ok (AItems [(["m"], LPrior 0)]); Ok AUnit; Ok (ANat 1); Ok AUnit; Ok (ANat 1)].
+Proof. vm_compute. reflexivity. Qed.
+
+(* the same two histories with the proposed repairs: nothing leaks, nothing thaws *)
+Example fixed_items :
+  snd (run_query cfg_fixed 0 QOrdered (fst (step cfg_fixed (OSetItem 1 "m" (VPrior 3)) (fst (run cfg_fixed h_items init0)))))
+  = snd (run_query cfg_fixed 0 QOrdered (fst (run cfg_fixed h_items init0))).
+Proof. vm_compute. reflexivity. Qed.
+Example fixed_derive :
+  map ofrozen (heap (fst (step cfg_fixed (ODerive 1) (fst (run cfg_fixed h_derive init0))))) = [true; true].
 Proof. vm_compute. reflexivity. Qed.
